@@ -260,6 +260,8 @@ func c06Bases() [][]c06File {
 		{{"2_b.sql", "B;\n"}, {"1_a.sql", "A;\n"}, {"readme.md", "doc"}},
 		{{"1_a.sql", "A;\n"}, {"2_i.sql", ignoreDirective + "I;\n"}, {"3_c.sql", "C;\n"}},
 		{{"1_a.sql", "A;\n"}, {"9_i.sql", ignoreDirective + "I;\n"}},
+		// every file opted out of the sum: the sum file is still part of the directory
+		{{"1_i.sql", ignoreDirective + "A;\n"}, {"2_i.sql", ignoreDirective + "B;\n"}},
 		{{"a b.sql", "A;\n"}, {"c.sql", "h1:x\n"}},
 		{{"1.sql", "-- atlas:sum ignore x\nA;\n"}, {"2.sql", "-- atlas:sum  ignore\nB;\n"}, {"3.sql", "-- foo atlas:sum ignore\nC;\n"}},
 		{},
